@@ -24,7 +24,15 @@ const (
 // Also errors: Upper Shift not followed by a plain ASCII value, 05/06 Macro
 // anywhere but the first codeword, undefined C40/Text shift values, Base 256
 // fields that overrun the symbol or have a non-canonical length, an
-// unlatch (254) in ASCII mode.
+// unlatch (254) in ASCII mode, Upper Shift applied to FNC1, C40/Text/X12
+// pairs whose value exceeds 39*1600+39*40+39+1.
+//
+// Deliberately tolerated: a dangling Shift/Upper Shift at the end of a
+// C40/Text segment (the standard pads with Shift 1), 254 as the very last
+// codeword of a C40/Text/X12 segment, anything after the pad codeword 129
+// (the 253-state pads are not verified; compare with PadTo for that).
+// End-of-symbol rules applied: one codeword left in C40/Text/X12 and one or
+// two left at an EDIFACT triple boundary are read as ASCII.
 func DecodeCodewords(data []byte) (string, error) {
 	d := &hlDecoder{cw: data}
 	if err := d.run(); err != nil {
@@ -211,7 +219,10 @@ func (d *hlDecoder) c40text(text bool) error {
 				case v <= 26: // [ \ ] ^ _
 					emit(91 + v - 22)
 				case v == 27: // FNC1
-					emit(0x1D)
+					if upper {
+						return fmt.Errorf("dmref: Upper Shift applied to FNC1 at %d", at)
+					}
+					d.out = append(d.out, 0x1D)
 				case v == 30: // Upper Shift
 					if upper {
 						return fmt.Errorf("dmref: double Upper Shift at %d", at)
